@@ -22,7 +22,7 @@ import core
 MANIFEST = dict(
     technique="TLA+ spec (MultiValued: class tables, Build/Dump/Parse/Load, width rule) model-checked by TLC over every subset of every class's structured fields; CASE lines replayed into Dsc/Changes/BuildInfo/PdiffIndex/Release in both directions; recorded life cycles validated by TLC (TraceMultiValued)",
     text="TLC explores, to a fixed point, every class x Release.size_field_behavior x EVERY subset of the class's structured fields (PdiffIndex: 2^14) x record lists of <= 2 records (sizes of 1..18 characters, single-line form included) and checks DumpTotal, RecordsRoundTrip, SubFieldNames and the width rule (16, or the longest size of the field); the life cycle is a history: after a dump a record may be appended or a size replaced in place, a list re-assigned, a field deleted, and every later dump is checked against the current records; spec-level negative controls (IterateAllFields = the pre-78e977a KeyError, CacheWidths = stale width table after an in-place mutation, SplitEverySpace) must make TLC report a violation. Each explored paragraph is printed as a CASE line with the expected layout and replayed with concretized tokens: build from records -> dump() -> parse, and parse the expected text -> dump() -> parse; recorded life cycles with up to 6 records, arbitrary token lengths and white space are validated by TLC against the same actions.",
-    note="Sub-field tables are transcribed from the module docstring (BuildInfo is not listed there: taken from deb-buildinfo(5)/the class). Unspecified: Release/dak with a single-line field (TypeError today), width of a Release/apt-ftparchive field holding a size longer than 16. Separator blanks other than the size padding are diagnostic. Quick tier replays a seed-dependent 1/16 sample of the PdiffIndex subsets (all are model-checked), thorough replays every subset. Trusted: TLC, the layout projection (regex over dump()), the concretizer.",
+    note="Sub-field tables are transcribed from the module docstring (BuildInfo is not listed there: taken from deb-buildinfo(5)/the class). Unspecified: Release/dak with a single-line field (TypeError today), width of a Release/apt-ftparchive field holding a size longer than 16. Separator blanks other than the size padding are diagnostic. Quick tier replays a seed-dependent 1/24 sample of the PdiffIndex subsets (all are model-checked), thorough replays every subset. Trusted: TLC, the layout projection (regex over dump()), the concretizer.",
     design="5 (C12)")
 
 WORKERS = min(8, core.NCPU)
@@ -42,7 +42,7 @@ def new_obj(cname, beh, *args):
     """construct; returns (obj, None) or (None, message) -- an exception is an observation"""
     try:
         o = get_class(cname)(*args)
-        if cname == "Release" and beh != "-":
+        if cname == "Release" and beh not in ("-", "default"):
             o.size_field_behavior = beh
         return o, None
     except Exception as e:
@@ -112,23 +112,71 @@ def observe_records(obj, table):
 
 # ------------------------------------------------------------------ concretization
 
+SPECIAL_SIZES = [0, 9, 10, 99, 100, 2**15, 2**16, 2**31 - 1, 2**31, 2**32 - 1, 2**32, 2**63 - 1, 2**63, 10**18, 2**64, 10**24]
+BOUNDARY_LENS = [1, 2, 7, 8, 9, 15, 16, 17, 31, 32, 33, 63, 64, 65, 71, 72, 73, 79, 80, 81, 127, 128, 129, 255, 256, 257,
+                 1023, 1024, 1025, 4095, 4096, 4097]
+BOUNDARY_COUNTS = [9, 10, 11, 16, 17, 31, 32, 33, 99, 100, 101, 255, 256, 257]
+
+
+def size_token(rng, n):
+    """n digits; regularly a boundary number (2**31, 2**63, 10**18 ...) with or without leading zeros"""
+    if rng.random() < 0.4:
+        fits = [str(v) for v in SPECIAL_SIZES if len(str(v)) <= n]
+        exact = [v for v in fits if len(v) == n]
+        if exact and rng.random() < 0.7:
+            return rng.choice(exact)
+        if fits and rng.random() < 0.5:
+            return rng.choice(fits).rjust(n, "0")        # leading zeros
+    return rng.choice("123456789") + "".join(rng.choice(string.digits) for _ in range(n - 1))
+
+
 def make_token(rng, sub, n, canonical, k):
     if sub == "size":
         if canonical:
             return (str(1 + k % 9) + "0" * (n - 1))[:n]
-        return rng.choice("123456789") + "".join(rng.choice(string.digits) for _ in range(n - 1))
+        return size_token(rng, n)
     if sub.lower() in HASHES:
         if canonical:
             return (("%x" % (k % 16)) * n)[:n]
         return "".join(rng.choice("0123456789abcdef") for _ in range(n))
     if canonical:
         return ("%s%d" % (sub[0], k) + "x" * n)[:n]
-    return rng.choice(ALNUM) + "".join(rng.choice(FREE) for _ in range(n - 1))
+    return rng.choice(ALNUM) + "".join(rng.choices(FREE, k=n - 1))
 
 
-def concretize(rng, case, canonical):
+def blow_up(case, rng, total):
+    """size stress (notes/SIZE_STRESS.md): the same abstract case with `total` records per field.
+    Every record of the model is replicated -- as the identical record (same tokens) or as a fresh
+    record of the same shape; the model's width table depends only on the SET of size lengths of
+    the field, so every copy has the layout TLC printed for its original line."""
+    big = dict(case)
+    big["F"] = []
+    for fld in case["F"]:
+        f, fname, form, width, wspec, names, lines = fld
+        if form != "multi":
+            big["F"].append(fld)
+            continue
+        n = len(lines)
+        counts = [1] * n
+        for _ in range(max(0, total - n)):
+            counts[rng.randrange(n)] += 1
+        out, fresh = [], 0
+        for line, cnt in zip(lines, counts):
+            for j in range(cnt):
+                if j == 0 or rng.random() < 0.3:
+                    out.append(line)                                    # identical record
+                else:
+                    fresh += 1
+                    out.append([[pad, tid + 100000 * fresh, ln] for pad, tid, ln in line])
+        big["F"].append([f, fname, form, width, wspec, names, out])
+    big["blown"] = total
+    return big
+
+
+def concretize(rng, case, canonical, stress=False):
     """token texts for every (field, id) of a CASE (all dumps of its history): distinct ids ->
-    distinct texts of the stated length"""
+    distinct texts of the stated length; stress: digests and names get boundary lengths instead
+    (the model is abstract in them: only the length of the size token enters the layout)"""
     conc, used = {}, {}
     fls = [case["F"]] + [st[1] for st in case.get("H", []) if st[0] == "dump"]
     for F in fls:
@@ -139,6 +187,8 @@ def concretize(rng, case, canonical):
                 for i, (pad, tid, n) in enumerate(line):
                     if str(tid) in pool:
                         continue
+                    if stress and names[i] != "size":
+                        n = rng.choice(BOUNDARY_LENS)
                     for attempt in range(50):
                         t = make_token(rng, names[i], n, canonical and attempt == 0, tid + attempt)
                         if t not in seen:
@@ -298,43 +348,81 @@ def run_case(ctx, case, conc, variant, tables):
     return check_records(case, conc, observe_records(obj3, table), "B parse(dump(parse(text)))")
 
 
+OTHER_RECORDS = [("0cc175b9c0f1b6a831c399e269772661", "5"), ("92eb5ffee6ae2fec3ad71c777531578f", "12345")]
+
+
+def other_step(others, cname, v, tables):
+    """a step of ANOTHER live object: create it (with two records in its first structured field) if
+    need be, set its size_field_behavior if v says so, dump it; returns None or a message"""
+    try:
+        o = others.get(cname)
+        if o is None:
+            o = others[cname] = get_class(cname)()
+            fld = tables[cname][1]
+            o[fld["f"]] = [dict(zip(fld["subs"], list(r) + ["other/%d" % i] * (len(fld["subs"]) - 2)))
+                           for i, r in enumerate(OTHER_RECORDS)]
+        if v != "-":
+            o.size_field_behavior = v
+        o.dump()
+        return None
+    except Exception as e:
+        return "other %s object (behaviour %s) raised %s: %s" % (cname, v, type(e).__name__, e)
+
+
 def run_history(ctx, case, conc, variant, tables):
-    """replay a history on ONE living object: start (from records or from text), then for every
-    step of H either dump() -- compared with the layout / records the model expects for the
-    CURRENT records -- or a mutation applied in place / by assignment"""
-    cname, beh = case["c"], case["b"]
+    """replay a history on ONE living object (made from records or parsed from text, as the model
+    says; its size_field_behavior assigned only if the model says so), interleaved with steps of
+    OTHER live objects: every dump() is compared with the layout / records the model expects for
+    the CURRENT records and the object's OWN option; after every mutation the living object must
+    show exactly the model's records (position by position)"""
+    cname = case["c"]
+    b0 = case["b0"] if case["bs0"] else ("default" if cname == "Release" else "-")
     table = tables[cname]
     lnames = {fld["f"].lower() for fld in table}
     H = case["H"]
-    first = {"c": cname, "b": beh, "F": H[0][1]}
+    k0 = next(i for i, st in enumerate(H) if st[0] == "dump")
+    first = {"c": cname, "b": b0, "F": H[k0][1]}
     tok = lambda f, pair: conc[str(f)][str(pair[0])]
-    if variant.get("start") == "text":
-        obj, err = new_obj(cname, beh, as_input(render(first, conc, variant), variant.get("input", 0)))
-        if err:
-            return "H: parsing the start text: " + err
-    else:
-        obj, err = new_obj(cname, beh)
-        if err:
-            return "H: " + err
-        try:
-            for fld in first["F"]:
-                f, fname, names, lines = fld[0], fld[1], fld[5], fld[6]
-                obj[fname] = [dict((names[i], conc[str(f)][str(tid)]) for i, (pad, tid, n) in enumerate(line)) for line in lines]
-        except Exception as e:
-            return "H: building the paragraph raised %s: %s" % (type(e).__name__, e)
+    others = {}
+    obj = None
+    beh = case["b0"]
     done = []
     for k, st in enumerate(H):
         op = st[0]
         what = "H step %d (%s after %s)" % (k + 1, op, ", ".join(done) or "start")
+        if op == "other":
+            m = other_step(others, st[1], st[2], tables)
+            if m:
+                return "%s: %s" % (what, m)
+            done.append("other %s:=%s" % (st[1], st[2]))
+            continue
+        if obj is None:          # the object under observation is created now
+            if case["o"] == "parsed":
+                obj, err = new_obj(cname, b0, as_input(render(first, conc, variant), variant.get("input", 0)))
+                if err:
+                    return "H: parsing the start text: " + err
+            else:
+                obj, err = new_obj(cname, b0)
+                if err:
+                    return "H: " + err
+                try:
+                    for fld in first["F"]:
+                        f, fname, names, lines = fld[0], fld[1], fld[5], fld[6]
+                        obj[fname] = [dict((names[i], conc[str(f)][str(tid)]) for i, (pad, tid, n) in enumerate(line)) for line in lines]
+                except Exception as e:
+                    return "H: building the paragraph raised %s: %s" % (type(e).__name__, e)
         if op == "dump":
             step = {"c": cname, "b": beh, "F": st[1]}
+            m = check_records(step, conc, observe_records(obj, table), what + " records of the living object")
+            if m:
+                return m
             text, res = do_dump(obj)
             if res != "ok":
                 return "%s: dump() raised %s; model: dump is total" % (what, res[4:])
             m = check_layout(ctx, step, conc, observe_layout(text, lnames), what)
             if m:
                 return m
-            obj2, err = new_obj(cname, beh, text)
+            obj2, err = new_obj(cname, "default", text)
             if err:
                 return "%s: re-parsing dump(): %s" % (what, err)
             m = check_records(step, conc, observe_records(obj2, table), what + " parse(dump())")
@@ -342,9 +430,13 @@ def run_history(ctx, case, conc, variant, tables):
                 return m
             done.append("dump")
             continue
-        f = st[1]
-        fname, subs = table[f - 1]["f"], table[f - 1]["subs"]
         try:
+            if op == "setbeh":
+                obj.size_field_behavior = beh = st[1]
+                done.append("size_field_behavior:=%s" % beh)
+                continue
+            f = st[1]
+            fname, subs = table[f - 1]["f"], table[f - 1]["subs"]
             if op == "append":
                 obj[fname].append(dict(zip(subs, [tok(f, p) for p in st[2]])))
             elif op == "setsize":
@@ -358,15 +450,15 @@ def run_history(ctx, case, conc, variant, tables):
         except core.MachineryError:
             raise
         except Exception as e:
-            return "%s: %s on %s raised %s: %s" % (what, op, fname, type(e).__name__, e)
-        done.append("%s %s" % (op, fname))
+            return "%s: %s raised %s: %s" % (what, op, type(e).__name__, e)
+        done.append("%s %s%s" % (op, fname, " record %d" % st[2] if op == "setsize" else ""))
     return None
 
 
 def make_variant(rng, c):
     if c == 0:
-        return {"start": "records"}
-    return {"start": rng.choice(["records", "text"]), "spell": rng.randrange(3), "input": rng.randrange(4), "reverse": rng.random() < 0.5,
+        return {}
+    return {"spell": rng.randrange(3), "input": rng.randrange(4), "reverse": rng.random() < 0.5,
             "deb822dict": rng.random() < 0.5, "beh_late": rng.random() < 0.5,
             "extra_first": rng.randrange(5) if rng.random() < 0.5 else 0,
             "extra_last": rng.randrange(5) if rng.random() < 0.3 else 0}
@@ -374,26 +466,41 @@ def make_variant(rng, c):
 
 # ------------------------------------------------------------------ trace recording (code -> spec)
 
-def gen_recipe(rng, tables):
-    """a random life cycle: class, behaviour, subset of fields, 1..6 records of random tokens
-    (lengths well beyond the model constants, repeated tokens), direction, white space"""
-    cname = rng.choice(["Dsc", "Changes", "BuildInfo", "PdiffIndex", "PdiffIndex", "Release", "Release"])
-    beh = rng.choice(["apt-ftparchive", "dak"]) if cname == "Release" else "-"
+def gen_recipe(rng, tables, big=0):
+    """a random life cycle: class, behaviour (Release: apt-ftparchive, dak or the untouched
+    default), subset of fields, records of random tokens -- counts, lengths and numbers well beyond
+    the model constants and regularly at boundaries (notes/SIZE_STRESS.md): 1..6 records mostly,
+    sometimes 9..33 / 100 / 256 (big: that many in one field), sizes of 1..25 digits incl. 2**31,
+    2**63, leading zeros, names of up to 1025 characters, IDENTICAL records -- direction, white space"""
+    cname = rng.choice(["Dsc", "Changes", "BuildInfo", "PdiffIndex", "PdiffIndex", "Release", "Release", "Release"])
+    beh = rng.choice(["apt-ftparchive", "dak", "default"]) if cname == "Release" else "-"
     table = tables[cname]
     n = len(table)
     k = rng.choice([0, 1, 1, 2, 3, n - 1, n, rng.randint(0, n)])
+    if big:
+        k = rng.choice([1, 2])
     present = sorted(rng.sample(range(1, n + 1), max(0, min(n, k))))
     direction = rng.choice(["build", "given"])
     fields = []
-    for f in present:
+    for fi, f in enumerate(present):
         subs = table[f - 1]["subs"]
         nrec = rng.randint(1, 6)
+        if rng.random() < 0.08:
+            nrec = rng.choice(BOUNDARY_COUNTS[:8])
+        if big and fi == 0:
+            nrec = big
         form = "multi"
-        if direction == "given" and rng.random() < 0.25:
+        if direction == "given" and rng.random() < 0.25 and not (big and fi == 0):
             form, nrec = "single", 1
-        maxsize = rng.choice([3, 8, 16, 18])
+        maxsize = rng.choice([3, 8, 16, 18, 25])
+        longnames = rng.random() < 0.1 and nrec <= 33
         recs, lines = [], []
         for r in range(nrec):
+            if recs and rng.random() < (0.5 if nrec > 6 else 0.2):
+                j = rng.randrange(len(recs))                    # the IDENTICAL record (and line) again
+                recs.append(list(recs[j]))
+                lines.append(list(lines[j]))
+                continue
             rec = []
             for s in subs:
                 if s == "size":
@@ -401,7 +508,7 @@ def gen_recipe(rng, tables):
                 elif s.lower() in HASHES:
                     ln = {"md5sum": 32, "md5": 32, "sha1": 40, "sha256": 64, "sha512": 128}[s.lower()] if rng.random() < 0.8 else rng.randint(1, 12)
                 else:
-                    ln = rng.randint(1, 30)
+                    ln = rng.choice(BOUNDARY_LENS[:29]) if longnames else rng.randint(1, 30)
                 if recs and rng.random() < 0.1:
                     rec.append(rng.choice(recs)[len(rec)])      # repeated token
                 else:
@@ -422,18 +529,29 @@ def gen_recipe(rng, tables):
     return {"cls": cname, "beh": beh, "dir": direction, "fields": fields, "order": order,
             "spell": rng.randrange(3), "input": rng.randrange(4), "again": rng.random() < 0.3,
             "extra": rng.randrange(5) if rng.random() < 0.4 else 0,
-            "muts": gen_mutations(rng, table, fields)}
+            "muts": gen_mutations(rng, table, fields, cname)}
 
 
-def gen_mutations(rng, table, fields):
-    """0..3 mutations of the living object, each followed by another dump: append a record /
-    replace a size in place (growing or shrinking the longest size), re-assign a list, delete a field"""
+def gen_mutations(rng, table, fields, cname):
+    """0..3 steps, each followed by another dump of the living object: append a record / replace a
+    size in place (growing or shrinking the longest size; often at a position whose record occurs
+    twice), re-assign a list, delete a field, set size_field_behavior, or a step of ANOTHER live object"""
     cur = {x["f"]: {"form": x["form"], "recs": [list(r) for r in x["recs"]]} for x in fields}
     muts = []
     for _ in range(rng.choice([0, 0, 1, 1, 2, 3])):
         multi = [f for f in cur if cur[f]["form"] == "multi"]
-        ops = ["assign"] + (["append", "append", "setsize", "setsize"] if multi else []) + (["delete"] if cur else [])
+        ops = ["assign"] + (["append", "append", "setsize", "setsize", "setsize"] if multi else []) + (["delete"] if cur else [])
+        ops += ["other", "other"] + (["setbeh", "setbeh"] if cname == "Release" else [])
         op = rng.choice(ops)
+        if op == "setbeh":
+            muts.append({"op": "setbeh", "v": rng.choice(["apt-ftparchive", "dak"])})
+            muts[-1]["single_left"] = any(v["form"] == "single" for v in cur.values())
+            continue
+        if op == "other":
+            c = rng.choice(["Release", "Release", "PdiffIndex", "Dsc", "Changes"])
+            muts.append({"op": "other", "c": c, "v": rng.choice(["apt-ftparchive", "dak", "-"]) if c == "Release" else "-"})
+            muts[-1]["single_left"] = any(v["form"] == "single" for v in cur.values())
+            continue
         if op == "assign":
             f = rng.choice(sorted(cur)) if cur and rng.random() < 0.7 else rng.randint(1, len(table))
         elif op == "delete":
@@ -444,17 +562,24 @@ def gen_mutations(rng, table, fields):
 
         def new_rec(maxsize):
             return [make_token(rng, s, rng.randint(1, maxsize) if s == "size" else rng.randint(1, 20), False, 0) for s in subs]
+
+        def dup_pos(recs):
+            """a position whose record also stands at another position, if there is one"""
+            d = [i for i, r in enumerate(recs) if recs.count(r) > 1]
+            return rng.choice(d) if d and rng.random() < 0.7 else rng.randrange(len(recs))
         if op == "append":
-            rec = new_rec(rng.choice([2, 9, 18]))
+            rec = list(rng.choice(cur[f]["recs"])) if rng.random() < 0.3 else new_rec(rng.choice([2, 9, 18, 25]))
             cur[f]["recs"].append(rec)
             muts.append({"op": "append", "f": f, "rec": rec})
         elif op == "setsize":
-            r = rng.randrange(len(cur[f]["recs"]))
-            t = make_token(rng, "size", rng.choice([1, 2, 5, 9, 12, 16, 18]), False, 0)
+            r = dup_pos(cur[f]["recs"])
+            t = make_token(rng, "size", rng.choice([1, 2, 5, 9, 10, 12, 16, 18, 19, 25]), False, 0)
             cur[f]["recs"][r][subs.index("size")] = t
             muts.append({"op": "setsize", "f": f, "r": r + 1, "tok": t})
         elif op == "assign":
             recs = [new_rec(rng.choice([3, 18])) for _ in range(rng.randint(1, 4))]
+            if rng.random() < 0.3:
+                recs.append(list(recs[0]))
             cur[f] = {"form": "multi", "recs": recs}
             muts.append({"op": "assign", "f": f, "recs": recs})
         else:
@@ -497,8 +622,11 @@ def execute(recipe, tables):
     lnames = {fld["f"].lower() for fld in table}
     pool = Pool()
     events = []
-    tr = {"cls": cname, "beh": beh, "events": events}
-    unspecified = cname == "Release" and beh == "dak" and any(x["form"] == "single" for x in recipe["fields"])
+    cur_beh = "apt-ftparchive" if beh == "default" else beh       # the documented default of a fresh Release
+    tr = {"cls": cname, "beh": cur_beh, "behset": beh not in ("default", "-"), "events": events}
+    unspecified = cname == "Release" and cur_beh == "dak" and any(x["form"] == "single" for x in recipe["fields"])
+    single_present = any(x["form"] == "single" for x in recipe["fields"])
+    others = {}
     spell = SPELL[recipe["spell"]]
     if recipe["dir"] == "build":
         obj, err = new_obj(cname, beh)
@@ -560,7 +688,7 @@ def execute(recipe, tables):
             events.append({"op": "dump", "res": res.split(":")[1], "fields": []})
             return None
         events.append({"op": "dump", "res": "ok", "fields": ev_layout(observe_layout(text, lnames), table, pool)})
-        fresh, err = new_obj(cname, beh, text)
+        fresh, err = new_obj(cname, cur_beh, text)
         if err:
             events.append({"op": "error", "what": err})
             return None
@@ -577,6 +705,23 @@ def execute(recipe, tables):
         if fresh is None:
             return tr
     for mu in recipe.get("muts", []):
+        if mu["op"] == "other":
+            m = other_step(others, mu["c"], mu["v"], tables)
+            if m:
+                events.append({"op": "error", "what": m})
+                return tr
+            events.append({"op": "other", "c": mu["c"], "v": mu["v"]})
+        elif mu["op"] == "setbeh":
+            try:
+                obj.size_field_behavior = cur_beh = mu["v"]
+            except Exception as e:
+                events.append({"op": "error", "what": "setting size_field_behavior raised %s: %s" % (type(e).__name__, e)})
+                return tr
+            events.append({"op": "setbeh", "v": mu["v"]})
+        if mu["op"] in ("other", "setbeh"):
+            if dump_parse(obj, cname == "Release" and cur_beh == "dak" and mu["single_left"]) is None:
+                return tr
+            continue
         f = mu["f"]
         fname, subs = spell(table[f - 1]["f"]), table[f - 1]["subs"]
         try:
@@ -596,7 +741,7 @@ def execute(recipe, tables):
         except Exception as e:
             events.append({"op": "error", "what": "%s raised %s: %s" % (mu["op"], type(e).__name__, e)})
             return tr
-        if dump_parse(obj, cname == "Release" and beh == "dak" and mu["single_left"]) is None:
+        if dump_parse(obj, cname == "Release" and cur_beh == "dak" and mu["single_left"]) is None:
             return tr
     return tr
 
@@ -631,9 +776,17 @@ def corrupt(t, how):
         if how == "lostfield" and e["op"] == "dump" and len(e["fields"]) >= 1:
             e["fields"].pop()
             return t
-        if how == "lostmutation" and e["op"] in ("append", "setsize", "delete") and i + 1 < len(evs):
+        if how == "lostmutation" and e["op"] in ("append", "delete") and i + 1 < len(evs):
             del evs[i]
             return t
+        if how == "aliased" and e["op"] == "setsize" and i + 1 < len(evs) and evs[i + 1]["op"] == "dump":
+            # pretend the edit of one position also shows at another position of the list
+            for fl in evs[i + 1]["fields"]:
+                if fl["f"] == e["f"] and fl["form"] == "multi":
+                    for q, line in enumerate(fl["lines"]):
+                        if q != e["r"] - 1 and line[1]["id"] != e["tok"]["id"]:
+                            line[1].update(id=e["tok"]["id"], len=e["tok"]["len"])
+                            return t
         if how == "stalewidth" and e["op"] in ("append", "setsize") and t["cls"] in ("Release", "PdiffIndex") \
                 and t["beh"] != "apt-ftparchive" and i + 1 < len(evs) and evs[i + 1]["op"] == "dump":
             # pretend the dump after an in-place mutation still pads to some other width
@@ -648,7 +801,7 @@ def corrupt(t, how):
 def validate(ctx, traces, with_controls=True):
     controls = []
     if with_controls:
-        for how in ("swap", "name", "drop", "pad", "keyerror", "lostfield", "lostmutation", "stalewidth"):
+        for how in ("swap", "name", "drop", "pad", "keyerror", "lostfield", "lostmutation", "stalewidth", "aliased"):
             for t in traces:
                 c = corrupt(t, how)
                 if c:
@@ -737,6 +890,7 @@ def run(ctx):
     rng = ctx.rng
     ctx.assumptions += [
         "D3: record lists are non-empty, tokens contain no white space, a record has one token per documented sub-field",
+        "size dimension (notes/SIZE_STRESS.md): the model is abstract in the number of records and in the length of digests/names; replayed cases are also run with their records replicated to 9..257 (a few: 1000) records, identical and fresh copies, and with tokens of boundary lengths up to 4097; recorded traces contain up to 1000 records, sizes of 1..25 digits (2**31, 2**63, 10**18, leading zeros), names up to 1025 characters, identical records",
         "model: <= 2 records per field in the closed configurations (sizes 1..18 characters), histories of <= 2 mutations (append / size in place / assign / delete) with a dump after each; up to 6 records, arbitrary lengths, up to 3 mutations in the recorded traces",
         "unspecified (executed, any outcome accepted): Release/dak with a single-line field; width of a Release/apt-ftparchive field holding a size of more than 16 characters",
         "blanks other than the padding of the size column of Release/PdiffIndex multi-line fields are diagnostic (spec_drift), not verdicts",
@@ -751,9 +905,15 @@ def run(ctx):
         "pdiff": bg_tlc(ctx, "MultiValued", cfg_with(cfg_p, EmitOff=emit_off), workers=max(1, WORKERS - 2), want_tags={"CASE"}),
         "small": bg_tlc(ctx, "MultiValued", cfg_with(cfg_s, EmitOff=emit_off), workers=max(1, WORKERS // 2), want_tags={"CASE"}),
         "neg_iterate": bg_tlc(ctx, "MultiValued", cfg_with("MC_MultiValued_neg_iterate.cfg", Emit="TRUE"), workers=1, want_tags={"TABLES"}),
-        "neg_cache": bg_tlc(ctx, "MultiValued", "MC_MultiValued_neg_cache.cfg", workers=1, want_tags=set()),
     }
-    if not quick:       # the other spec-level controls do not depend on the tree: thorough tier only
+    negs = {"neg_cache": ("CacheWidths", ("WidthRule", "RightAligned")),
+            "neg_shared": ("SharedEqualRecords", ("EditIsLocal",)),
+            "neg_classopt": ("ClassLevelOption", ("WidthTable", "WidthRule"))}
+    # these spec-level controls do not depend on the tree: one of them per quick run (by seed), all in thorough
+    todo = sorted(negs) if not quick else [sorted(negs)[ctx.seed % len(negs)]]
+    for name in todo:
+        jobs[name] = bg_tlc(ctx, "MultiValued", "MC_MultiValued_%s.cfg" % name, workers=1, want_tags=set())
+    if not quick:
         jobs["neg_split"] = bg_tlc(ctx, "MultiValued", "MC_MultiValued_neg_split.cfg", workers=1, want_tags=set())
         jobs["neg_iterate_ok"] = bg_tlc(ctx, "MultiValued", "MC_MultiValued_neg_iterate_ok.cfg", workers=1, want_tags=set())
     try:
@@ -766,6 +926,8 @@ def run(ctx):
         # ---- 2. code -> spec: record life cycles, validate them in the background
         ntr = 300 if quick else 4000
         recipes = [gen_recipe(rng, tables) for _ in range(ntr)]
+        for big, cnt in ((100, 2), (257, 1), (1000, 1)) if quick else ((100, 20), (257, 10), (1000, 5)):
+            recipes += [gen_recipe(rng, tables, big=big) for _ in range(cnt)]
         traces = [execute(rc, tables) for rc in recipes]
         jobs["traces"] = Bg(lambda: validate(ctx, traces))
 
@@ -778,9 +940,12 @@ def run(ctx):
         must_hold(r_pdiff)
         replay_cases(ctx, r_pdiff, tables, 2, stats)
 
-        r4 = jobs["neg_cache"].join()
-        if r4.violated not in ("WidthRule", "RightAligned"):
-            raise core.MachineryError("negative control CacheWidths: TLC reported %r instead of a violation of WidthRule" % r4.violated)
+        rneg = {}
+        for name in todo:
+            rneg[name] = jobs[name].join()
+            if rneg[name].violated not in negs[name][1]:
+                raise core.MachineryError("negative control %s: TLC reported %r instead of a violation of %s"
+                                          % (negs[name][0], rneg[name].violated, negs[name][1][0]))
         r2 = r3 = None
         if not quick:
             r2 = jobs["neg_split"].join()
@@ -794,15 +959,17 @@ def run(ctx):
         for j in jobs.values():
             j.th.join()
     # all threads are finished: bookkeeping
-    for r, cnt in ((r1, False), (r4, False), (r2, False), (r3, False), (r_small, True), (r_pdiff, True)):
+    for r, cnt in [(r1, False)] + [(rneg[n], False) for n in todo] + [(r2, False), (r3, False), (r_small, True), (r_pdiff, True)]:
         if r is not None:
             account(ctx, "MultiValued", r, cnt)
-    ctx.extra["negative_controls_spec"] = {"IterateAllFields": r1.violated, "CacheWidths": r4.violated}
+    ctx.extra["negative_controls_spec"] = {"IterateAllFields": r1.violated}
+    ctx.extra["negative_controls_spec"].update({negs[n][0]: rneg[n].violated for n in todo})
     if r2 is not None:
         ctx.extra["negative_controls_spec"].update({"SplitEverySpace": r2.violated, "IterateAllFields on classes without lookup": r3.violated or "holds"})
     ctx.extra["cases_per_mode"] = stats["per_mode"]
     ctx.extra["cases_per_class"] = stats["per_class"]
     ctx.extra["cases_replayed"] = stats["n"]
+    ctx.extra["cases_size_stressed"] = {"n": stats.get("stressed", 0), "with_1000_records": stats.get("thousand", 0)}
     ctx.extra["model"] = {"cfgs": [cfg_s, cfg_p], "EmitOff": emit_off,
                           "states": r_small.distinct + r_pdiff.distinct, "generated": r_small.generated + r_pdiff.generated,
                           "fields_per_class": {k: len(v) for k, v in tables.items()}}
@@ -839,14 +1006,19 @@ def must_hold(r):
 def replay_cases(ctx, r, tables, nconc, stats):
     rng = ctx.rng
     cases = sorted(r.printed.get("CASE", []), key=lambda c: json.dumps(c, sort_keys=True))
-    for case in cases:
+    quick = ctx.tier == "quick"
+    every = 80 if quick else 15
+    thousand = 2 if quick else 12
+    for idx, case in enumerate(cases):
         if len(ctx.violations) >= 3:      # leave room for violations found by trace validation
             break
         stats["n"] += 1
         stats["per_mode"][case["m"]] = stats["per_mode"].get(case["m"], 0) + 1
         key = case["c"] + ("" if case["b"] == "-" else "/" + case["b"])
         stats["per_class"][key] = stats["per_class"].get(key, 0) + 1
-        for c in range(nconc):
+        # quick tier: one concretization per plain case (canonical / random alternately), two per history
+        cs = range(nconc) if (case.get("H") or not quick) else [idx % 2]
+        for c in cs:
             conc = concretize(rng, case, canonical=(c == 0))
             variant = make_variant(rng, c)
             msg = (run_history if case.get("H") else run_case)(ctx, case, conc, variant, tables)
@@ -855,6 +1027,24 @@ def replay_cases(ctx, r, tables, nconc, stats):
             if msg:
                 ctx.violation({"kind": "case", "case": case, "conc": conc, "variant": variant, "tables": tables}, msg)
                 break
+        # size stress: the same abstract case with many records / long tokens / boundary numbers
+        multi = [fld for fld in case["F"] if fld[2] == "multi"]
+        if not case.get("H") and multi and not case["u"] and idx % every == every // 2 and len(ctx.violations) < 3:
+            total = rng.choice(BOUNDARY_COUNTS)
+            if thousand and len(case["F"]) <= 2 and stats.get("thousand", 0) < thousand:
+                stats["thousand"] = stats.get("thousand", 0) + 1
+                total = rng.choice([1000, 1001, 1025])
+            stress = total <= 101 and rng.random() < 0.5
+            big = blow_up(case, rng, total)
+            conc = concretize(rng, big, False, stress=stress)
+            variant = make_variant(rng, 1)
+            msg = run_case(ctx, big, conc, variant, tables)
+            ctx.case_seen(("stress", total, stress, case["m"], case["c"], case["b"], json.dumps(case["F"])), True)
+            ctx.traces += 1
+            stats["stressed"] = stats.get("stressed", 0) + 1
+            if msg:
+                ctx.violation({"kind": "case", "case": big, "conc": conc, "variant": variant, "tables": tables},
+                              "[%d records per field%s] %s" % (total, ", long tokens" if stress else "", msg))
         if key not in stats["shown"] and len(case["F"]) == 2 and case["m"] == "pairs":
             stats["shown"].add(key)
             ctx.sample("CASE %s: %s" % (key, json.dumps(case["F"], separators=(",", ":"))[:400]))
@@ -869,6 +1059,8 @@ def describe_event(t, ev):
         return ev["what"]
     if ev["op"] in ("append", "setsize", "assign", "delete"):
         return "%s field %d" % (ev["op"], ev["f"])
+    if ev["op"] in ("setbeh", "other"):
+        return "%s %s" % (ev["op"], ev.get("c", "") + ":=" + ev["v"])
     return ev["op"]
 
 
